@@ -11,7 +11,7 @@ from vlib import paths
 # witnesses: {"N":…, "C":…, "style": {...}, "ops": [op, …]}
 #   gate op : {"k":"g","name":str,"label":str|None,"t":[…],"c":[…]|None,"cc":[…]|None,"raw":bool}
 #             raw = built with the base class Gate (user gates, unusual shapes); otherwise add_gate(name)
-#   meas op : {"k":"m","t":[…],"s":int}
+#   meas op : {"k":"m","t":[…],"s":int|None}      s = None: classical_store=None (the result is not stored)
 #   global  : {"k":"G","name":str,"label":str|None}   gate with targets = controls = None (GLOBALPHASE)
 # style keys given to draw(): gate_pad, end_wire_ext, align_layer, wire_label and "ignored" = dict of
 # StyleConfig fields the text renderer does not read (passed to the code, not to the model).
@@ -22,12 +22,16 @@ LIB_1Q = ["X", "Y", "Z", "H", "SNOT", "S", "T", "SQRTNOT", "RX", "RY", "RZ", "R"
 LIB_2T = ["SWAP", "ISWAP", "SQRTSWAP", "SQRTISWAP", "BERKELEY", "SWAPALPHA", "MS", "RZX"]
 LIB_1C1T = ["CNOT", "CX", "CY", "CZ", "CS", "CT", "CSIGN", "CPHASE", "CRX", "CRY", "CRZ"]
 STYLE_READ = {"gate_pad", "wire_label", "end_wire_ext", "align_layer", "gate_margin"}
+# attributes of the circuit elements the model has (`classical_controls` is NOT among them: a
+# classically controlled gate is drawn as the plain gate)
+GATE_READ = {"targets", "controls", "name", "arg_label", "classical_store"}
 GLYPHS = set("┤├█│┴┬╳╥║╩╨─═┌┐└┘")
 
 
 # ------------------------------------------------------------------------------------------
-# which of the proposed repairs (fixes/C20-1..3) does the working tree contain?  (AST, formatting independent)
-VARIANT = {"spanFix": False, "insideNode": False, "globalBox": False}     # set by C20.regenerate
+# which of the repairs (fixes/C20-1..4) does the working tree contain?  (AST, formatting independent)
+VARIANT = {"spanFix": False, "insideNode": False, "globalBox": False, "measBox": False}     # set by C20.regenerate
+RECOGNISED = [True]      # False: the tree is none of the 16 variants; the sweeps then cover the whole domain
 _SPAN_OLD = ["sorted_controls[-1] > sorted_targets[0]", "sorted_controls[0] < sorted_targets[-1]",
              "wire not in gate.targets",
              "sorted_controls[-1] > sorted_targets[0]", "sorted_controls[0] < sorted_targets[-1]"]
@@ -37,6 +41,9 @@ _SPAN_NEW = ["sorted_controls[-1] > sorted_targets[-1]", "sorted_controls[0] < s
 
 
 def detect_variant():
+    """(variant, problems): the variant of the tree, and what was not recognised (then the flag in
+    question is the nearest guess, so that the correspondence still localises the difference)."""
+    problems = []
     path = os.path.join(paths.REPO, "src", "qutip_qip", "circuit", "text_renderer.py")
     try:
         tree = ast.parse(open(path, encoding="utf-8").read())
@@ -67,7 +74,8 @@ def detect_variant():
     elif seen == _SPAN_NEW:
         span = True
     else:
-        raise TranslatorError("box-span tests of the text renderer not recognised: " + repr(seen))
+        span = sum(a == b for a, b in zip(seen, _SPAN_NEW)) >= sum(a == b for a, b in zip(seen, _SPAN_OLD))
+        problems.append("box-span tests of the text renderer not recognised: " + repr(seen))
     # node of a control between the targets
     nodes = [n for n in ast.walk(fns["_update_target_multiq"]) if isinstance(n, ast.Constant) and n.value == "█"]
     tests = [ast.unparse(n.test) for n in ast.walk(fns["_update_target_multiq"]) if isinstance(n, ast.If)]
@@ -76,11 +84,26 @@ def detect_variant():
     elif "gate.controls and wire in gate.controls" in tests:
         inside = True
     else:
-        raise TranslatorError("_update_target_multiq draws a node under an unrecognised condition")
+        inside = True
+        problems.append("_update_target_multiq draws a node under an unrecognised condition")
     # gate without targets
     gtests = [ast.unparse(n.test) for n in ast.walk(fns["layout"]) if isinstance(n, ast.If)]
     glob = "gate.targets is None and gate.controls is None" in gtests
-    return {"spanFix": span, "insideNode": inside, "globalBox": glob}
+    # measurement without classical_store (fixes/C20-4): three places
+    if "_draw_measurement_gate" not in fns:
+        raise TranslatorError("TextRenderer._draw_measurement_gate not found")
+    mtests = [ast.unparse(n.test) for n in ast.walk(fns["_draw_measurement_gate"]) if isinstance(n, ast.If)]
+    m_seen = ["measurement.classical_store is None" in mtests, "gate.classical_store is None" in gtests,
+              "gate.classical_store is not None" in gtests]
+    # every other mention of classical_store must be one of the shipped ones
+    if all(m_seen):
+        meas = True
+    elif not any(m_seen):
+        meas = False
+    else:
+        meas = sum(m_seen) >= 2
+        problems.append("handling of classical_store=None in the text renderer not recognised: " + repr(m_seen))
+    return {"spanFix": span, "insideNode": inside, "globalBox": glob, "measBox": meas}, problems
 
 
 def _impl():
@@ -169,6 +192,8 @@ def enc_str(s):
 
 def enc_op(op):
     if op["k"] == "m":
+        if op["s"] is None:
+            return "M:%s" % ",".join(map(str, op["t"]))
         return "m:%s:%d" % (",".join(map(str, op["t"])), op["s"])
     lab = "-" if op["label"] is None else "L" + enc_str(op["label"])
     if op["k"] == "G":
@@ -181,10 +206,10 @@ def model_line(w, cmd="render"):
     sty = w["style"]
     fr = Fraction(sty.get("gate_pad", 0.05))      # exact value of the float the code receives
     assert fr > -1
-    s = "%s n=%d c=%d padn=%d padd=%d ext=%d align=%d var=%d%d%d" % (
+    s = "%s n=%d c=%d padn=%d padd=%d ext=%d align=%d var=%d%d%d%d" % (
         cmd, w["N"], w["C"], fr.numerator, fr.denominator, sty.get("end_wire_ext", 2),
         1 if sty.get("align_layer", False) else 0,
-        VARIANT["spanFix"], VARIANT["insideNode"], VARIANT["globalBox"])
+        VARIANT["spanFix"], VARIANT["insideNode"], VARIANT["globalBox"], VARIANT["measBox"])
     wl = sty.get("wire_label")
     if wl is not None:
         s += " labels=" + "".join(enc_str(x) + ";" for x in wl)
@@ -242,7 +267,7 @@ def inside_ctrl(op):
 
 def in_domain(w):
     """Circuits the property quantifies over and the oracle can read back unambiguously:
-    distinct in-range qubits, single-target measurements into existing bits, labels without
+    distinct in-range qubits, single-target measurements into existing bits or without classical_store, labels without
     box-drawing glyphs / leading or trailing blanks, full-length wire labels, gate_pad > -1
     (ceil(gate_pad) >= 0), end_wire_ext >= 0.  Gates on the whole register (GLOBALPHASE) belong to it."""
     N, C, sty = w["N"], w["C"], w["style"]
@@ -253,7 +278,7 @@ def in_domain(w):
         return False
     for op in norm_ops(w):
         if op["k"] == "m":
-            if len(op["t"]) != 1 or not (0 <= op["t"][0] < N) or not (0 <= op["s"] < C):
+            if len(op["t"]) != 1 or not (0 <= op["t"][0] < N) or not (op["s"] is None or 0 <= op["s"] < C):
                 return False
         else:
             qs = list(op["t"]) + list(op["c"] or [])
@@ -271,10 +296,15 @@ def covered(w):
     """in_domain and outside the classes of the recorded findings that the tree at hand still has
     (= the hypotheses of the theorems for the variant of the tree): boxes with controls and a gap
     in their targets unless the tree has fixes/C20-1 (and C20-2 if a control lies in the gap);
-    gates on the whole register unless it has fixes/C20-3."""
+    gates on the whole register unless it has fixes/C20-3; measurements without classical_store unless
+    it has fixes/C20-4.  On a tree that is none of the recognised variants: the whole domain."""
     if not in_domain(w):
         return False
+    if not RECOGNISED[0]:
+        return True
     for o in w["ops"]:
+        if o["k"] == "m" and o["s"] is None and not VARIANT["measBox"]:
+            return False
         if o["k"] == "G" and not VARIANT["globalBox"]:
             return False
         if o["k"] == "g" and gap_gate(o) and not VARIANT["spanFix"]:
@@ -356,8 +386,8 @@ def oracle_rows(w, rows):
                 exp_ctrl.append((c, "top", hi) if c > hi else (c, "bot", lo) if c < lo else (c, "inside", -1))
         elif k == "swap":
             exp_swap.append((max(op["t"]), min(op["t"])))
-        elif k == "meas":
-            exp_meas.append((op["t"][0], N + op["s"]))
+        elif k == "meas" and op["s"] is not None:
+            exp_meas.append((op["t"][0], N + op["s"]))      # an unstored measurement has no link
     got_ctrl, got_swap, got_meas = [], [], []
     for r, row in enumerate(rows):
         body_from = pre[wire_of_row(r)]
@@ -489,6 +519,8 @@ def rand_gate(rng, N, C, wild=False, allow_gap=True):
         nt, nc = min(nt, N), min(nc, max(0, N - min(nt, N)))
         q = pick(nt + nc)
         cs = q[nt:] if nc else (None if rng.random() < 0.8 else [])
+        if wild and rng.random() < 0.05:
+            q, nt = q[nt:], 0                      # a gate without any target (only controls, or nothing)
         op = {"name": rng.choice(["U", "CU", "MyGate", "CCRX", "G3", "Ux", "SWAP" if wild else "V"]), "t": q[:nt], "c": cs, "raw": True}
     op.update({"k": "g", "label": lab, "cc": cc})
     if not allow_gap and not wild and gap_gate(op):
@@ -503,18 +535,25 @@ def rand_gate(rng, N, C, wild=False, allow_gap=True):
     return op
 
 
-def rand_circuit(rng, wild=False, allow_gap=True, maxN=6, maxC=3, maxops=12):
-    N = rng.randint(1, maxN)
+def rand_circuit(rng, wild=False, allow_gap=True, maxN=6, maxC=3, maxops=12, minN=1):
+    N = rng.randint(minN, maxN)
     C = rng.randint(0, maxC)
     ops = []
     for _ in range(rng.randint(0 if wild else 1, maxops)):
-        if C and rng.random() < 0.25:
+        r = rng.random()
+        if C and r < 0.22:
             t = [rng.randrange(N)]
             s = rng.randrange(C)
             if wild and rng.random() < 0.2:
-                t = [rng.randint(0, N + C + 1) for _ in range(rng.choice([1, 1, 2]))]
+                t = [rng.randint(0, N + C + 1) for _ in range(rng.choice([0, 1, 1, 2]))]
                 s = rng.randint(0, C + 1)
             ops.append({"k": "m", "t": t, "s": s})
+        elif r < (0.30 if VARIANT["measBox"] or wild else 0.235):
+            # a measurement whose result is not stored (classical_store=None)
+            t = [rng.randrange(N)]
+            if wild and rng.random() < 0.25:
+                t = [rng.randint(0, N + C + 1) for _ in range(rng.choice([0, 1, 2, 3]))]
+            ops.append({"k": "m", "t": t, "s": None})
         else:
             ops.append(rand_gate(rng, N, C, wild, allow_gap))
     if rng.random() < (0.08 if VARIANT["globalBox"] or wild else 0.03):
@@ -545,12 +584,110 @@ def single_gate_cases(maxN, maxC=1):
                 yield N, C, {"k": "g", "name": "Z", "label": None, "t": [a], "c": [], "cc": None, "raw": True}
                 for s in range(C):
                     yield N, C, {"k": "m", "t": [a], "s": s}
+                yield N, C, {"k": "m", "t": [a], "s": None}
             yield N, C, {"k": "G", "name": "GLOBALPHASE", "label": None}
 
 
 SINGLE_STYLES = [
     {}, {"gate_pad": 0}, {"gate_pad": 1.5, "end_wire_ext": 0}, {"align_layer": True, "gate_pad": 1},
 ]
+
+# ---- the matrix stream: gate kind x position of the controls relative to the box x contiguity of the
+#      targets x classical controls x neighbouring measurement x style
+MATRIX_N, MATRIX_C = 7, 2
+MATRIX_TARGETS = [("single", [3]), ("contig", [2, 3]), ("contig", [4, 3, 2]), ("gap", [1, 3]), ("gap", [5, 2]),
+                  ("gap", [1, 5, 3])]
+MATRIX_STYLES = [
+    {}, {"gate_pad": 0}, {"gate_pad": 2.5, "end_wire_ext": 0}, {"align_layer": True, "gate_pad": 1},
+    {"wire_label": ["", "classical bit", "a", "", "q2", "a rather long label", "ω", "5", "top"], "end_wire_ext": 5},
+    {"align_layer": True, "wire_label": ["c", "d"] + [str(i) for i in range(7)], "gate_pad": 0.3, "end_wire_ext": 1},
+]
+MATRIX_LABELS = [None, "abc", "", "λ=π/2", "ab"]
+
+
+def control_positions(op):
+    """the set of relative positions (above / inside / below the span of the targets) of the quantum controls"""
+    if op["k"] != "g" or not op["c"] or not op["t"]:
+        return ()
+    lo, hi = min(op["t"]), max(op["t"])
+    return tuple(sorted({"above" if c > hi else "below" if c < lo else "inside" for c in op["c"]}))
+
+
+def target_shape(op):
+    if op["k"] != "g" or not op["t"]:
+        return "-"
+    ts = op["t"]
+    if len(ts) == 1:
+        return "single"
+    return "contig" if set(ts) == set(range(min(ts), max(ts) + 1)) else "gap"
+
+
+def cell_of(op):
+    """the cell of the coverage matrix an element belongs to"""
+    k = op_class(op)
+    if op["k"] == "m":
+        return ("meas-unstored" if op["s"] is None else "meas",)
+    if op["k"] == "G":
+        return ("global",)
+    return (k, "+".join(control_positions(op)) or "none", target_shape(op), "cc" if op.get("cc") else "nocc")
+
+
+def matrix_cases(thorough=False):
+    N, C = MATRIX_N, MATRIX_C
+    i = 0
+    unstored = (lambda k: None) if VARIANT["measBox"] else (lambda k: k % C)     # kinds the tree cannot draw are left
+    glob = [{"k": "G", "name": "GLOBALPHASE", "label": None}] if VARIANT["globalBox"] else []   # to the other streams
+    for shape, ts in MATRIX_TARGETS:
+        lo, hi = min(ts), max(ts)
+        holes = [x for x in range(lo, hi + 1) if x not in ts]
+        above, below = [hi + 1, 6] if hi + 1 < 6 else [6], [0, lo - 1] if lo - 1 > 0 else [0]
+        pools = {"above": [above[-1:], above], "below": [below[:1], below], "inside": [holes[:1], holes] if holes else []}
+        for mask in range(8):
+            pos = [nm for b, nm in enumerate(("above", "inside", "below")) if mask >> b & 1]
+            if any(not pools[nm] for nm in pos):
+                continue
+            for many in (0, 1):
+                cs = sorted(set(x for nm in pos for x in pools[nm][many]))
+                if many and cs == sorted(set(x for nm in pos for x in pools[nm][0])):
+                    continue
+                ctrl_opts = [cs] if pos else ([None, []] if not many else [])
+                for c in ctrl_opts:
+                    for cc in (None, [0, 1]) if not thorough else (None, [0], [0, 1]):
+                        for si, sty in enumerate(MATRIX_STYLES):
+                            for around in range(3):
+                                i += 1
+                                g = {"k": "g", "name": "Ug", "label": MATRIX_LABELS[i % len(MATRIX_LABELS)], "t": list(ts),
+                                     "c": c, "cc": cc, "raw": True}
+                                ops = [g]
+                                if around == 1:        # a stored measurement of a wire of the span before, an unstored one after
+                                    ops = [{"k": "m", "t": [lo], "s": i % C}, g, {"k": "m", "t": [hi], "s": unstored(i + 1)}]
+                                elif around == 2:      # a gate on a neighbouring wire before, so that the layers differ
+                                    ops = [{"k": "g", "name": "H", "label": None, "t": [min(6, hi + 1)], "c": None, "cc": [1], "raw": False},
+                                           g, {"k": "m", "t": [max(0, lo - 1)], "s": (i + 1) % C}]
+                                yield {"N": N, "C": C, "style": {k: (list(v) if isinstance(v, list) else v) for k, v in sty.items()}, "ops": ops}
+    # the other kinds: SWAP, one-qubit gate, both measurements, gate on the whole register x classical controls x style
+    for si, sty in enumerate(MATRIX_STYLES):
+        for cc in (None, [1]):
+            for a, b in ((0, 1), (4, 1), (6, 0)):
+                yield {"N": N, "C": C, "style": dict(sty), "ops": [
+                    {"k": "g", "name": "SWAP", "label": None, "t": [a, b], "c": None, "cc": cc, "raw": False},
+                    {"k": "g", "name": "RX", "label": "π/2", "t": [a], "c": None, "cc": cc, "raw": False},
+                    {"k": "m", "t": [b], "s": 1}, {"k": "m", "t": [a], "s": unstored(0)}] + glob}
+
+
+def required_cells():
+    """the cells every run must exercise (else the correspondence reports a coverage hole)"""
+    need = {("meas",), ("meas-unstored",), ("global",), ("swap", "none", "contig", "nocc"), ("swap", "none", "gap", "nocc"),
+            ("swap", "none", "contig", "cc"), ("single", "none", "single", "nocc"), ("single", "none", "single", "cc")}
+    for cc in ("cc", "nocc"):
+        for shape in ("single", "contig", "gap"):
+            for pos in ("above", "below", "above+below"):
+                need.add(("multi", pos, shape, cc))
+        for pos in ("inside", "above+inside", "below+inside", "above+below+inside"):
+            need.add(("multi", pos, "gap", cc))
+        for shape in ("contig", "gap"):
+            need.add(("multi", "none", shape, cc))
+    return need
 
 
 class C20(PropertyCheck):
@@ -581,6 +718,14 @@ class C20(PropertyCheck):
         "QipVerif.C20.global_gate_not_drawn",
         "QipVerif.C20.global_gate_counterexample",
         "QipVerif.C20.global_gate_covered",
+        "QipVerif.C20.valid_covered",
+        "QipVerif.C20.well_formed_repaired",
+        "QipVerif.C20.draws_iff",
+        "QipVerif.C20.valid_drawable",
+        "QipVerif.C20.unstored_measurement_not_drawn",
+        "QipVerif.C20.unstored_measurement_counterexample",
+        "QipVerif.C20.unstored_measurement_covered",
+        "QipVerif.C20.unstored_measurement_box",
     ]
     technique = ("Lean 4 proof (invariants of the renderer's append-only row state, by induction over the circuit) "
                  "+ model/implementation correspondence with exact string equality")
@@ -619,9 +764,16 @@ class C20(PropertyCheck):
     def regenerate(self, ctx):
         """No generated Lean file: the model is parametric in `Render.Variant`; which variant the tree at
         hand is, is read from its source and sent to the driver with every request (`var=`)."""
-        VARIANT.update({"spanFix": False, "insideNode": False, "globalBox": False})
-        VARIANT.update(detect_variant())        # TranslatorError -> the check reports it and keeps the shipped variant
+        VARIANT.update({"spanFix": False, "insideNode": False, "globalBox": False, "measBox": False})
+        RECOGNISED[0] = False
+        var, problems = detect_variant()
+        VARIANT.update(var)
         ctx.log("text renderer variant: " + ", ".join(f"{k}={int(v)}" for k, v in VARIANT.items()))
+        if problems:
+            # the nearest variant stays selected (the correspondence then shows exactly what differs) and the
+            # property sweeps cover the whole domain: no class is excused on a tree that is not a known variant
+            raise TranslatorError("; ".join(problems))
+        RECOGNISED[0] = True
         return []
 
     def _style_fields_read(self):
@@ -639,6 +791,16 @@ class C20(PropertyCheck):
                             seen.add(a.attr)
         return seen
 
+    def _gate_fields_read(self):
+        """Names X of `gate.X` / `measurement.X` read in text_renderer.py (what the renderer looks at in a
+        circuit element)."""
+        path = os.path.join(paths.REPO, "src", "qutip_qip", "circuit", "text_renderer.py")
+        seen = set()
+        for a in ast.walk(ast.parse(open(path, encoding="utf-8").read())):
+            if isinstance(a, ast.Attribute) and isinstance(a.value, ast.Name) and a.value.id in ("gate", "measurement"):
+                seen.add(a.attr)
+        return seen
+
     def _compare(self, ctx, res, cases, stream):
         """cases: list of witnesses.  One driver call for the whole batch."""
         lines = [model_line(w) for w in cases]
@@ -648,9 +810,21 @@ class C20(PropertyCheck):
             ist, irows = impl_draw(w)
             nontrivial = len(w["ops"]) >= 2 or any(
                 (o_["k"] in "mG") or len(o_["t"]) + len(o_["c"] or []) >= 2 for o_ in w["ops"])
-            kinds = sorted(set(op_class(o_) for o_ in w["ops"]))
-            tags = [f"stream={stream}", f"N={w['N']}", f"C={w['C']}", f"verdict={mst}", f"ops={min(len(w['ops']), 12)}"] + \
-                   [f"kind={k}" for k in kinds] + [f"style={k}" for k in sorted(w["style"]) if k != "ignored"]
+            cells = set(cell_of(o_) for o_ in w["ops"])
+            kinds = sorted(set(c_[0] for c_ in cells))
+            tags = [f"stream={stream}", f"N={min(w['N'], 10)}{'+' if w['N'] >= 10 else ''}", f"C={w['C']}", f"verdict={mst}",
+                    f"ops={min(len(w['ops']), 12)}"] + \
+                   [f"kind={k}" for k in kinds] + [f"style={k}" for k in sorted(w["style"]) if k != "ignored"] + \
+                   sorted(set(f"controls={c_[1]}" for c_ in cells if len(c_) == 4 and c_[0] == "multi")) + \
+                   sorted(set(f"targets={c_[2]}" for c_ in cells if len(c_) == 4 and c_[0] in ("multi", "swap")))
+            if any(len(c_) == 4 and c_[3] == "cc" for c_ in cells):
+                tags.append("classical-controls")
+            if mst == "ok":
+                self.cells |= cells
+                for c_ in cells:
+                    self.cells_style |= {(c_[0], k) for k in w["style"] if k != "ignored"}
+                    if w["N"] >= 10:
+                        self.cells_wide.add(c_[0])
             if any(o_["k"] == "g" and gap_gate(o_) for o_ in w["ops"]):
                 tags.append("class=gap-gate")
             if any(o_["k"] == "g" and inside_ctrl(o_) for o_ in w["ops"]):
@@ -666,11 +840,18 @@ class C20(PropertyCheck):
 
     def correspondence(self, ctx, res):
         rng = ctx.rng
+        self.cells, self.cells_style, self.cells_wide = set(), set(), set()
         read = self._style_fields_read()
         res.case({"style_fields_read": sorted(read)}, nontrivial=False, tags=["stream=style-fields"])
         if read != STYLE_READ:
             res.disagree({"style_fields_read": sorted(read)}, sorted(STYLE_READ), sorted(read),
                          "the renderer reads other StyleConfig fields than the model has", None)
+        gread = self._gate_fields_read()
+        res.case({"gate_fields_read": sorted(gread)}, nontrivial=False, tags=["stream=gate-fields"])
+        if gread != GATE_READ:
+            res.disagree({"gate_fields_read": sorted(gread)}, sorted(GATE_READ), sorted(gread),
+                         "the renderer reads other fields of the circuit elements than the model has "
+                         "(e.g. classical_controls, which the model does not draw)", None)
         # 1. exhaustive: every placed single gate / swap / measurement
         maxN = 5 if ctx.thorough else 4
         batch = []
@@ -679,11 +860,19 @@ class C20(PropertyCheck):
                 batch.append({"N": N, "C": C, "style": dict(sty), "ops": [op]})
                 if op["k"] == "g" and op["name"] == "Ug":    # odd-length label: bridges are one column narrower
                     batch.append({"N": N, "C": C, "style": dict(sty), "ops": [dict(op, label="abc")]})
+            if C and op["k"] == "g":                         # the same element classically controlled
+                batch.append({"N": N, "C": C, "style": {}, "ops": [dict(op, cc=list(range(C)))]})
         self._compare(ctx, res, batch, "single")
         res.exhaustive = True
-        res.notes.append(f"exhaustive over every placement of one gate of every shape (targets<=3, controls<=3, total<=4), "
-                         f"every SWAP and every measurement on N<={maxN} qubits, {len(SINGLE_STYLES)} styles, even and odd label length "
-                         f"({len(batch)} drawings)")
+        res.notes.append(f"exhaustive over every placement of one gate of every shape (targets<=3, controls<=3, total<=4; with and "
+                         f"without classical controls), every SWAP and every stored / unstored measurement on N<={maxN} qubits, "
+                         f"{len(SINGLE_STYLES)} styles, even and odd label length ({len(batch)} drawings)")
+        # 1b. the matrix: kind x position of the controls x contiguity x classical controls x neighbours x style
+        batch = list(matrix_cases(ctx.thorough))
+        self._compare(ctx, res, batch, "matrix")
+        res.notes.append(f"matrix stream on {MATRIX_N}+{MATRIX_C} wires: target shapes {[t for _, t in MATRIX_TARGETS]} x controls "
+                         f"above/inside/below (every subset, one or two per side) x classical controls x {len(MATRIX_STYLES)} styles "
+                         f"x neighbouring stored/unstored measurements ({len(batch)} drawings)")
         # every library gate name once, in a valid shape
         lib = []
         for nm in LIB_1Q:
@@ -699,6 +888,10 @@ class C20(PropertyCheck):
         # 2. random circuits (the class of the known finding included: the model has the defect too)
         n = 60000 if ctx.thorough else 6000
         self._compare(ctx, res, [rand_circuit(rng, wild=False, allow_gap=True) for _ in range(n)], "random")
+        # 2b. wide registers: two-digit wire labels, long links
+        n = 6000 if ctx.thorough else 700
+        self._compare(ctx, res, [rand_circuit(rng, wild=False, allow_gap=True, minN=10, maxN=14 if not ctx.thorough else 24,
+                                              maxops=8) for _ in range(n)], "wide")
         # 3. malformed / unusual stream
         n = 25000 if ctx.thorough else 2500
         self._compare(ctx, res, [rand_circuit(rng, wild=True, maxN=4, maxC=2, maxops=5) for _ in range(n)], "wild")
@@ -710,6 +903,24 @@ class C20(PropertyCheck):
             res.case({"entry": w}, nontrivial=False, tags=["stream=entry-points"])
             if (st, rows) != (st2, rows2) or (st == "ok" and impl_save(w) != rows):
                 res.disagree(w, "draw()", "layout()/save()", "entry points print different rows", w)
+        # 5. coverage obligations of the streams (only kinds the tree at hand draws are demanded)
+        need = required_cells()
+        if not VARIANT["measBox"]:
+            need.discard(("meas-unstored",))
+        if not VARIANT["globalBox"]:
+            need.discard(("global",))
+        kinds = set(c_[0] for c_ in need)
+        holes = sorted(need - self.cells) + \
+            sorted((k, o) for k in kinds for o in ("gate_pad", "wire_label", "end_wire_ext", "align_layer")
+                   if (k, o) not in self.cells_style) + \
+            sorted((k, "N>=10") for k in kinds if k not in self.cells_wide)
+        res.case({"coverage_cells": len(self.cells)}, nontrivial=False, tags=["stream=coverage"])
+        res.notes.append(f"coverage: {len(self.cells)} distinct (kind, control positions, target shape, classical controls) cells "
+                         f"drawn; every kind under each of the 4 style options and on >= 10 qubits; holes: {holes}")
+        if holes:
+            res.disagree({"coverage": [list(h) for h in holes]}, "every required cell exercised", "holes",
+                         "the streams of this run did not exercise every required (kind x position x shape x classical "
+                         "control / style / wide register) cell", None)
 
     # ---------------------------------------------------------------------------------
     def oracle_replay(self, ctx, w):
@@ -745,8 +956,15 @@ class C20(PropertyCheck):
                 yield w, d
             if time.time() - t0 > budget_s:
                 return
+        for w in matrix_cases(True):
+            if covered(w):
+                f, d = self.oracle_replay(ctx, w)
+                if f:
+                    yield w, d
+            if time.time() - t0 > budget_s:
+                return
         while time.time() - t0 < budget_s:
-            w = rand_circuit(ctx.rng, wild=False, allow_gap=VARIANT["spanFix"], maxops=rng_small(ctx.rng))
+            w = rand_circuit(ctx.rng, wild=False, allow_gap=VARIANT["spanFix"] or not RECOGNISED[0], maxops=rng_small(ctx.rng))
             if not covered(w):
                 continue
             f, d = self.oracle_replay(ctx, w)
@@ -754,8 +972,8 @@ class C20(PropertyCheck):
                 yield w, d
 
     def oracle_always(self, ctx):
-        """Sweep over the class the theorems cover (the gap-gate class is the recorded finding
-        C20/equal_width and is excluded by the hypothesis `Contig` of equal_width_partial)."""
+        """Sweep of the string oracle over the class the theorems cover for the variant of the tree
+        (`covered`): on the repaired tree the whole domain."""
         k = 0
         for w in self._systematic():
             k += 1
@@ -765,8 +983,15 @@ class C20(PropertyCheck):
                 f, d = self.oracle_replay(ctx, w)
                 if f:
                     yield w, d
-        for _ in range(15000 if ctx.thorough else 1500):
-            w = rand_circuit(ctx.rng, wild=False, allow_gap=VARIANT["spanFix"], maxops=rng_small(ctx.rng))
+        for k, w in enumerate(matrix_cases(False)):
+            if (k % 2 == 0 or ctx.thorough) and covered(w):
+                f, d = self.oracle_replay(ctx, w)
+                if f:
+                    yield w, d
+        for k in range(15000 if ctx.thorough else 1500):
+            wide = k % 10 == 0
+            w = rand_circuit(ctx.rng, wild=False, allow_gap=VARIANT["spanFix"] or not RECOGNISED[0], maxops=rng_small(ctx.rng),
+                             minN=10 if wide else 1, maxN=13 if wide else 6)
             if covered(w):
                 f, d = self.oracle_replay(ctx, w)
                 if f:
